@@ -39,6 +39,10 @@ def setup():
     STATIC_DIR = tempfile.mkdtemp(prefix='C08_static_')
     with open(os.path.join(STATIC_DIR, 'hello.txt'), 'w') as f:
         f.write('static-hello')
+    import atexit
+    import shutil
+    owner = os.getpid()
+    atexit.register(lambda: os.getpid() == owner and shutil.rmtree(STATIC_DIR, ignore_errors=True))
     _mk_registry_class()
 
 
@@ -510,16 +514,22 @@ def build_variant(stmts, body):
     registry, app."""
     setup()
     mon = Monitor()
-    reg = _P['MonRegistry']('c08')
-    config = _P['Configurator'](registry=reg)
-    config.setup_registry()               # defaults are committed before the program starts
-    reg.c08_attach(mon)
-    config.add_subscriber(_prelude_response_subscriber, _P['NewResponse'])
-    config.commit()
     out = Built()
-    out.mon, out.registry = mon, reg
+    out.mon = mon
     out.decl = []
     out.app = None
+    out.registry = None
+    try:
+        reg = _P['MonRegistry']('c08')
+        config = _P['Configurator'](registry=reg)
+        config.setup_registry()               # defaults are committed before the program starts
+        reg.c08_attach(mon)
+        config.add_subscriber(_prelude_response_subscriber, _P['NewResponse'])
+        config.commit()
+    except Exception as e:                    # no statement of the program was issued yet
+        out.outcome = ['setup-error', type(e).__name__]
+        return out
+    out.registry = reg
     state = {'n': 0, 'inc': 0}
     from pyramid.registry import Deferred
 
